@@ -823,3 +823,25 @@ Proof.
     destruct (vv_add bs s c) as [s' ok]. destruct ok; [|reflexivity].
     apply IH. lia.
 Qed.
+
+(* ------------------------------------------------------------------ *)
+(* pb.Snapshot.Validate                                                 *)
+
+Definition pv_exact (f : pv_file) : Prop :=
+  let '(haspath, recorded, actual) := f in
+  haspath = true /\ recorded <> 0 /\ actual = Some recorded.
+
+Theorem snapshot_validate_exact_proved l : panic_on_size_mismatch = true ->
+  snapshot_validate l = PvTrue -> l <> [] /\ Forall pv_exact l.
+Proof.
+  intros Hp H. destruct l as [|f0 l0]; [discriminate|]. split; [discriminate|].
+  unfold snapshot_validate in H. remember (f0 :: l0) as l eqn:E. clear E f0 l0.
+  induction l as [|[[hp rc] act] l IH]; [constructor|].
+  cbn [pv_validate pv_check] in H.
+  destruct hp; cbn [negb orb] in H; [|discriminate].
+  destruct (N.eqb_spec rc 0) as [|Hrc]; [discriminate|].
+  destruct act as [a|]; [|discriminate].
+  destruct (N.eqb_spec rc a) as [->|Hne].
+  - constructor; [cbn; auto|apply IH; exact H].
+  - rewrite Hp in H. discriminate.
+Qed.
